@@ -258,6 +258,32 @@ func c12Second(w *mc.W, cas c12Msg, pb *merkleblock.PartialBlock, wantRoot ref.H
 		return
 	}
 	w.Trans()
+	// ... and ANOTHER object's extraction in between (a two-leaf proof with both leaves matched) is
+	// an extraction of that other message: scratch state shared between objects would show in either
+	if cas.Dense <= 100000 {
+		other := wire.MsgMerkleBlock{Transactions: 2, Flags: []byte{0x07}}
+		oa, ob := chainhash.Hash(c12Alpha[1]), chainhash.Hash(c12Alpha[2])
+		other.Hashes = []*chainhash.Hash{&oa, &ob}
+		var oroot, root3 *chainhash.Hash
+		var opb *merkleblock.PartialBlock
+		if m, p := mc.Guard(func() {
+			opb = merkleblock.NewMerkleBlockFromMsg(other)
+			oroot = opb.ExtractMatches()
+			root3 = pb.ExtractMatches()
+		}); p {
+			c.Violate("extraction-after-another-objects-extraction-panics", "msg", cas, m)
+			return
+		}
+		w.Trans()
+		if oroot == nil || ref.Hash32(*oroot) != ref.MerkleParent(c12Alpha[1], c12Alpha[2]) || len(opb.GetItems()) != 2 || len(opb.GetMatches()) != 2 {
+			c.Violate("another-objects-extraction-disturbed", "msg", cas, fmt.Sprintf("a two-leaf proof extracted after this message: root %v, %d items", oroot, len(opb.GetItems())))
+			return
+		}
+		if (root2 == nil) != (root3 == nil) || root3 != nil && *root3 != *root2 {
+			c.Violate("extraction-differs-after-another-objects-extraction", "msg", cas, fmt.Sprintf("second extraction %v, third (after another object was extracted) %v", root2, root3))
+			return
+		}
+	}
 	if root2 == nil {
 		return
 	}
